@@ -453,6 +453,7 @@ fn thin_storm(thorough: bool, seed: u64, gf: &Gf, out: &mut Vec<RsCase>) {
     use datamatrix::errorcode;
     let masks: [&[usize]; 10] = [&[], &[0], &[1], &[0, 1], &[2], &[0, 2], &[1, 2], &[0, 1, 2], &[3], &[0, 1, 2, 3]];
     const THREADS: u64 = 16;
+    set_case(0, "decode_error (storm)");
     for s in CATALOGUE.iter().filter(|s| s.blocks == 1 && s.total() <= 24) {
         let size = size_by_name(s.name).unwrap();
         let k = s.ec;
@@ -488,7 +489,10 @@ fn thin_storm(thorough: bool, seed: u64, gf: &Gf, out: &mut Vec<RsCase>) {
                             let mut rng = Rng::new(seed, 0x5709_0000 + (s.total() as u64) * 4096 + (mi as u64) * 64 + ti);
                             let mut keep: Vec<Vec<u8>> = Vec::new();
                             let mut syn = vec![0u8; k];
-                            for _ in 0..per_thread {
+                            for it in 0..per_thread {
+                                if it % 4096 == 0 {
+                                    storm_beat(ti as usize, true);
+                                }
                                 for (j, x) in syn.iter_mut().enumerate() {
                                     *x = if mask.contains(&j) { 0 } else { rng.byte() };
                                 }
@@ -512,6 +516,7 @@ fn thin_storm(thorough: bool, seed: u64, gf: &Gf, out: &mut Vec<RsCase>) {
                                     }
                                 }
                             }
+                            storm_beat(ti as usize, false);
                             keep
                         })
                     })
